@@ -108,7 +108,7 @@ fn main() -> std::process::ExitCode {
     } else if args.workload == "borrow" {
         borrowmx::run_borrow(seed, shard, args.u("nshards", 1), ops)
     } else if args.workload == "convert" {
-        convert::run_convert(seed, shard, ops)
+        convert::run_convert(seed, shard, ops, small)
     } else if args.workload == "iterdestroy-exhaustive" {
         iterdestroy::run_iterdestroy_exhaustive::<worlds::wsmall::EcsWorld>(seed, shard, args.u("nshards", 1), args.u("nmax", 4) as usize, small)
     } else if args.workload == "bigcap" {
